@@ -94,7 +94,7 @@ PROPS = {
         engine="step-harness",
     ),
     "C18": dict(
-        lean_modules=["Swim.Lemmas.Merge", "Swim.Props.C18", 'Swim.Model.Cluster', 'Swim.Props.Cluster', 'Swim.Props.Projection', "Swim.Props.Handoff"],
+        lean_modules=["Swim.Lemmas.Merge", "Swim.Props.C18", 'Swim.Model.Cluster', 'Swim.Props.Cluster', 'Swim.Props.Projection', "Swim.Props.Handoff", "Swim.Props.C18Parse"],
         tests="^TestC18$",
         shards_quick=8,
         rule='random histories with the allow-list on (10.0.0.0/8, fd00::/8) and half of the claimed addresses drawn from outside / malformed / IPv6 / v4-mapped classes, over direct alive claims, push/pull entries, address changes and name reclaims; every record and join event after every step must carry an allowed address; non-trivial/distinct as C01',
